@@ -501,4 +501,39 @@ theorem violated_nil_of_holds (r : Result) (h : holds r = true) : violated r = [
   simp only [Bool.and_eq_true] at h
   simp [violated, clauses, h]
 
+/-! ### `acceptable` spelled with the probes the code makes (used by Tie and Props) -/
+
+theorem any_or_fun {α} (l : List α) (p q : α → Bool) :
+    l.any (fun x => p x || q x) = (l.any p || l.any q) := by
+  induction l with
+  | nil => rfl
+  | cons x l ih =>
+    simp only [List.any_cons, ih]
+    cases p x <;> cases q x <;> cases l.any p <;> cases l.any q <;> rfl
+
+theorem any_and_const {α} (l : List α) (a : Bool) (p : α → Bool) :
+    l.any (fun x => a && p x) = (a && l.any p) := by
+  cases a <;> simp
+
+/-- the model's `acceptable`, spelled with the probes the code makes (`errors.Is` per sentinel, `errors.As`,
+the installed user functions) -/
+theorem acceptable_probes (ua : UA) (e : Option Err) :
+    acceptable ua e = (e.isNone || hasCls e .noRows || hasCls e .txDone || hasCls e .canceled ||
+      hasCls e .accType || (ua.a1 && hasCls e .userOk) || (ua.a2 && hasCls e .userOk2)) := by
+  cases e with
+  | none => rfl
+  | some e =>
+    have hf : srcAcceptable ua = fun s =>
+        (srcCls s == some .noRows) || (srcCls s == some .txDone) || (srcCls s == some .canceled) ||
+        (srcCls s == some .accType) || (ua.a1 && srcCls s == some .userOk) ||
+        (ua.a2 && srcCls s == some .userOk2) := by
+      funext s
+      obtain ⟨a1, a2⟩ := ua
+      cases s with
+      | body c => cases c <;> cases a1 <;> cases a2 <;> rfl
+      | commit c => cases c <;> cases a1 <;> cases a2 <;> rfl
+      | rollback c => cases c <;> cases a1 <;> cases a2 <;> rfl
+      | _ => cases a1 <;> cases a2 <;> rfl
+    simp only [acceptable, hasCls, hf, any_or_fun, any_and_const, Option.isNone, Bool.false_or]
+
 end GoZero.C14
